@@ -79,6 +79,23 @@ def observe(sc, root, binf, d, info, conv, w, do_recon=True, lf_numeric=False):
         raw = Path(binf).parent.parent
         orig = raw / "orig"
         shutil.move(str(Path(binf).parent), str(orig))
+        # what the destination folder holds before the reconstruction: nothing; the metadata of another (shorter) recording
+        # under the output's name, with or without a longer binary; the original's own metadata (kept when the size matches)
+        dest = ["fresh", "stale_meta", "stale_both", "orig_meta"][int(sc.get("seed", 0) + sc["ns"]) % 4]
+        fin["detail"]["recon_dest"] = dest
+        if dest != "fresh":
+            pdir = raw / "probe00"
+            pdir.mkdir(parents=True, exist_ok=True)
+            mname = Path(binf).with_suffix(".meta").name
+            mtxt = (orig / mname).read_text()
+            if dest == "orig_meta":
+                (pdir / mname).write_text(mtxt)
+            else:
+                nbytes = (orig / Path(binf).name).stat().st_size
+                stale = mtxt.replace(f"fileSizeBytes={nbytes}", f"fileSizeBytes={nbytes // 2}") + "staleLeftover=1\n"
+                (pdir / mname).write_text(stale)
+                if dest == "stale_both":
+                    (pdir / Path(binf).name).write_bytes(b"\x5a" * (nbytes + 770))
         try:
             rc = neuropixel.NP2Reconstructor(raw, "probe00", compress=False)
             st = rc.process()
